@@ -220,8 +220,17 @@ PARSED = [
 ]
 
 
+QUIET = [     # every value stays finite and NumPy reports nothing by default: the arithmetic at most UNDERFLOWS
+    ('Y = exp(X)', {'X': [-800.0, -745.0, -710.0, 1.0], 'Y': [0.0, 1.0]}),
+    ('Y = A * B', {'A': [1e-200, 1e-170, 2.0], 'B': [1e-200, 1e-160, 0.5], 'Y': [0.0, 1.0]}),
+    ('Y = 0.5 * Y + exp(X)', {'X': [-800.0, -1.0], 'Y': [0.0, 2.0]}),
+    ('Z = exp(X) * Y\nW = Z * Z', {'X': [-400.0, -800.0], 'Y': [1e-100, 1.0], 'Z': [0.0], 'W': [0.0]}),
+]
+
+
 def parsed_case(rng):
-    eqs, init = PARSED[rng.randrange(len(PARSED))]
+    quiet = rng.random() < 0.25
+    eqs, init = (QUIET if quiet else PARSED)[rng.randrange(len(QUIET if quiet else PARSED))]
     n = rng.choice([2, 3])
     p = rng.randrange(1, n)
     t = p if rng.random() < 0.7 else p - n
@@ -230,7 +239,7 @@ def parsed_case(rng):
     o = dict(min_iter=mn, max_iter=mx, tol=lib.fhex(rng.choice([1e-10, 1e-10, 1e-3, 0.5])), offset=rng.choice([0, 0, 0, -1]),
              failures=rng.choice(['raise', 'ignore']), errors='raise', catch_first_error=rng.random() < 0.5)
     ini = {nm: [lib.fhex(rng.choice(c)) for _ in range(n)] for nm, c in init.items()}
-    return {'kind': 'parsed', 'equations': eqs, 'n': n, 't': t, 'opts': sc.random_omit(rng, o, 0.1), 'init': ini}
+    return {'kind': 'parsed', 'equations': eqs, 'n': n, 't': t, 'opts': sc.random_omit(rng, o, 0.1), 'init': ini, 'quiet': quiet}
 
 
 # --------------------------------------------------------------------------- models whose series are NOT float64 (oracle only)
@@ -360,6 +369,12 @@ def _pos(case):
 
 def oracle(case, obs):
     """The C02 statement evaluated directly on the implementation's observations."""
+    if case.get('kind') == 'parsed' and case.get('quiet') and obs['out'][:2] == ['raise', 'SolutionError']:
+        # "for every model, period and option set in which check values stay finite": these programs stay finite and warning-free under
+        # NumPy's default settings (they only underflow), so the pass / convergence rule applies and no SolutionError may come out
+        return [{'sig': 'C02|finite-run-raised', 'what': 'the values of %r stay finite (the arithmetic at most underflows) but solve_t(%d, %s) '
+                 'raised %s after passes %s' % (case['equations'], case['t'], {k: case['opts'][k] for k in ('errors', 'catch_first_error', 'max_iter')},
+                                                obs['out'], obs['passvecs'])}]
     if case.get('kind') == 'dtype':
         return oracle_dtype(case, obs)
     if case.get('kind') == 'sp':
